@@ -70,7 +70,7 @@ def run(ctx):
                         SP.one_case(eng, res, sc2, a2, o2, [], sc2.enum_random(w3, rng), S.HIST_KEYS, "twin references, only the second selected")
             if it % (2 if quick else 1) == 0:
                 for packed, pack_refs in ((False, False), (True, False), (True, True), ("bitmap", False), ("bitmap+loose", True), ("partial", False),
-                                          ("GIT_OBJECT_DIRECTORY", False), ("GIT_ALTERNATE_OBJECT_DIRECTORIES", True), ("objects/info/alternates", False)):
+                                          ("GIT_OBJECT_DIRECTORY", False), ("GIT_ALTERNATE_OBJECT_DIRECTORIES", True), ("objects/info/alternates", False), ("info/grafts", False)):
                     SP.one_case(eng, res, sc, args, opts, explicit, None, S.HIST_KEYS, "layout", real=True, packed=packed,
                                 pack_refs=pack_refs)
                     nlay += 1
